@@ -10,9 +10,11 @@
       unlock capMu (deferred: after the whole loop).
   `count` is one atomic read (`beaconKey.CountMatching` under the beacon's RLock); each
   PatchFields runs under the record's guard; capMu serialises whole batches.
-  `PatchExpired` with a Cap has the same shape with the lock taken first
-  (swamp_patch_expired.go), `ShiftMatching` only removes records: both are covered by
-  `countAfterLock = true` batches and the `shrink` action.
+  `PatchExpired` with a Cap (swamp_patch_expired.go) is an `expired` batch: capMu first, then count
+  and select at most `budget` expired candidates in one step under the beacon lock, then the
+  per-record patches, capMu released at the end (`expiredHoldsCapMu`).  `ShiftMatching` only
+  removes records (`delete` / `shrink`).  Creates (`CreateIfNotExist` + seed) are patches on an
+  absent record.
 -/
 import Hv.Basic.LTS
 
@@ -21,6 +23,12 @@ namespace Hv.Cap
 structure Cfg where
   /-- `LockCapMu()` precedes `CountMatchingTreasures` in `capPreCount` -/
   countAfterLock : Bool
+  /-- `PatchFields`: on a create the pre-state is "not matching" (`if !isCreate { preMatched = … }`);
+      `false`: the pre-state is computed from the `InitialMsgpackOnCreate` seed -/
+  createPreFalse : Bool
+  /-- `PatchExpired` holds `capMu` until its per-treasure patches are done (`defer Unlock`);
+      `false`: it releases `capMu` right after the count+select step -/
+  expiredHoldsCapMu : Bool
   deriving DecidableEq, Repr
 
 inductive Pc where
@@ -35,25 +43,47 @@ structure Batch where
   todo : List (Nat × Bool)
   /-- ghost: number of CAP_EXCEEDED results -/
   rejected : Nat
+  /-- `CreateIfNotExist`, and whether the `InitialMsgpackOnCreate` seed matches the filter -/
+  create : Bool
+  seedMatches : Bool
+  /-- a `PatchExpired` call: lock first, count and select at most `budget` records in one step -/
+  expired : Bool
+  /-- ghost: KEY_NOT_FOUND results -/
+  notFound : Nat
   deriving DecidableEq, Repr
 
-def Batch.empty : Batch := { pc := .idle, counted := 0, budget := 0, todo := [], rejected := 0 }
+def Batch.empty : Batch :=
+  { pc := .idle, counted := 0, budget := 0, todo := [], rejected := 0, create := false, seedMatches := false,
+    expired := false, notFound := 0 }
 
 structure St where
   /-- `recs[k]`: record `k` matches the cap's filter -/
   recs : List Bool
+  /-- `present[k]`: record `k` exists (an absent record does not match) -/
+  present : List Bool
   capMu : Option Nat
   batch : Nat → Batch
   max : Nat
 
 def matching (s : St) : Nat := s.recs.count true
 
-def init (recs : List Bool) (max : Nat) : St :=
-  { recs := recs, capMu := none, batch := fun _ => Batch.empty, max := max }
+def initP (recs present : List Bool) (max : Nat) : St :=
+  { recs := recs, present := present, capMu := none, batch := fun _ => Batch.empty, max := max }
+
+/-- every record of the universe exists -/
+def init (recs : List Bool) (max : Nat) : St := initP recs (recs.map fun _ => true) max
 
 inductive Act where
   /-- a PatchTreasures RPC with this cap arrives -/
   | submit (b : Nat) (patches : List (Nat × Bool))
+  /-- … with `CreateIfNotExist` and a seed that does / does not match the filter -/
+  | submitCreate (b : Nat) (patches : List (Nat × Bool)) (seedMatches : Bool)
+  /-- a PatchExpired RPC with this cap: the candidate records in selection order (they end up matching) -/
+  | submitExpired (b : Nat) (candidates : List Nat)
+  /-- PatchExpired releasing capMu right after its select step (only when `expiredHoldsCapMu = false`) -/
+  | unlockEarly (b : Nat)
+  /-- a record is deleted (shift, delete) -/
+  | delete (k : Nat)
   /-- first / second statement of `capPreCount` -/
   | first (b : Nat)
   | second (b : Nat)
@@ -73,23 +103,52 @@ def fourCell (budget : Nat) (pre post : Bool) : Nat × Option Bool :=
     if budget = 0 then (budget, none) else (budget - 1, some post)
   else (budget, some post)
 
+/-- one `PatchFields` call of batch `x` on key `k`: new record bits, new presence bits, new batch -/
+def patchOne (cfg : Cfg) (s : St) (x : Batch) (k : Nat) (post : Bool) (rest : List (Nat × Bool)) :
+    List Bool × List Bool × Batch :=
+  let here := s.present.getD k false
+  if !here && !x.create then
+    -- KEY_NOT_FOUND: nothing is written
+    (s.recs, s.present, { x with todo := rest, notFound := x.notFound + 1 })
+  else
+    let pre := if here then s.recs.getD k false else (if cfg.createPreFalse then false else x.seedMatches)
+    match fourCell x.budget pre post with
+    | (bud, some v) => (s.recs.set k v, s.present.set k true, { x with budget := bud, todo := rest })
+    | (bud, none) => (s.recs, s.present, { x with budget := bud, todo := rest, rejected := x.rejected + 1 })
+
 def step (cfg : Cfg) (s : St) : Act → Option St
   | .submit b ps =>
     if (s.batch b).pc = .idle ∧ (∀ p ∈ ps, p.1 < s.recs.length) then
       some { s with batch := setBatch s b { Batch.empty with pc := .ready, todo := ps } }
     else none
+  | .submitCreate b ps sm =>
+    if (s.batch b).pc = .idle ∧ (∀ p ∈ ps, p.1 < s.recs.length) then
+      some { s with batch := setBatch s b { Batch.empty with pc := .ready, todo := ps, create := true, seedMatches := sm } }
+    else none
+  | .submitExpired b ks =>
+    if (s.batch b).pc = .idle ∧ (∀ k ∈ ks, k < s.recs.length) then
+      some { s with batch := setBatch s b { Batch.empty with pc := .ready, todo := ks.map (·, true), expired := true } }
+    else none
+  | .unlockEarly b =>
+    let x := s.batch b
+    if cfg.expiredHoldsCapMu = false ∧ x.expired = true ∧ x.pc = .run ∧ s.capMu = some b then
+      some { s with capMu := none }
+    else none
+  | .delete k => some { s with recs := s.recs.set k false, present := s.present.set k false }
   | .first b =>
     let x := s.batch b
     if x.pc = .ready then
-      if cfg.countAfterLock then
+      if cfg.countAfterLock || x.expired then
         if s.capMu = none then some { s with capMu := some b, batch := setBatch s b { x with pc := .half } } else none
       else some { s with batch := setBatch s b { x with pc := .half, counted := matching s } }
     else none
   | .second b =>
     let x := s.batch b
     if x.pc = .half then
-      if cfg.countAfterLock then
-        some { s with batch := setBatch s b { x with pc := .run, counted := matching s, budget := s.max - matching s } }
+      if cfg.countAfterLock || x.expired then
+        -- (PatchExpired: count and select under one beacon lock — at most `budget` candidates)
+        some { s with batch := setBatch s b { x with pc := .run, counted := matching s, budget := s.max - matching s,
+                                                      todo := if x.expired then x.todo.take (s.max - matching s) else x.todo } }
       else
         if s.capMu = none then
           some { s with capMu := some b, batch := setBatch s b { x with pc := .run, budget := s.max - x.counted } }
@@ -101,15 +160,14 @@ def step (cfg : Cfg) (s : St) : Act → Option St
       match x.todo with
       | [] => none
       | (k, post) :: rest =>
-        let pre := s.recs.getD k false
-        match fourCell x.budget pre post with
-        | (bud, some v) => some { s with recs := s.recs.set k v, batch := setBatch s b { x with budget := bud, todo := rest } }
-        | (bud, none) => some { s with batch := setBatch s b { x with budget := bud, todo := rest, rejected := x.rejected + 1 } }
+        let r := patchOne cfg s x k post rest
+        some { s with recs := r.1, present := r.2.1, batch := setBatch s b r.2.2 }
     else none
   | .unlock b =>
     let x := s.batch b
-    if x.pc = .run ∧ x.todo = [] ∧ s.capMu = some b then
-      some { s with capMu := none, batch := setBatch s b { x with pc := .done } }
+    if x.pc = .run ∧ x.todo = [] then
+      -- (a PatchExpired that released capMu early has nothing to release here)
+      some { s with capMu := if s.capMu = some b then none else s.capMu, batch := setBatch s b { x with pc := .done } }
     else none
   | .shrink k => some { s with recs := s.recs.set k false }
 
